@@ -14,9 +14,16 @@ FILES = HARNESS_BASE + ["lab_*.go", "src_*.go", "c01.go", "c01_src.go", "c01_fro
 VERBS = {"c01-front": ("jsfdef", "jsfkeeps", "jsfc08"), "c01-front-oa": ("oafdef", "oafkeeps", "oafc08")}
 
 
+def TAG():
+    """one binary per source tree: a run against a private copy (VERIF_REPO) never swaps the binary under a run against /repo"""
+    import hashlib
+    from verifkit import core
+    return "keeps" if os.path.realpath(core.REPO) == "/repo" else "keeps-" + hashlib.sha1(core.REPO.encode()).hexdigest()[:6]
+
+
 def run(c):
     """returns (stats per stream: Counter, bad: list of payload dicts, error text or None)"""
-    hb, err = build_go("verifharness", "harness", files=FILES, tag="keeps")
+    hb, err = build_go("verifharness", "harness", files=FILES, tag=TAG())
     if hb is None:
         return {}, [], "harness build failed: " + err[-1500:]
     quick = c.tier == "quick"
